@@ -333,7 +333,8 @@ def run_program(ops):
         if act == 'defclass':
             err = w.defclass(x, op['bases'], op['body'])
             ev = {'ev': act, 'x': x, 'bases': list(op['bases']), 'body': _canon(op['body']),
-                  'mixin': bool(op['body'].get('mixin'))}
+                  'mixin': bool(op['body'].get('mixin')),
+                  'bare': any(str(op['body'].get(f, '-')).startswith('bare') for f in 'pq')}
         elif act == 'instantiate':
             err = w.instantiate(x, op['c'], op['cfg'])
             ev = {'ev': act, 'x': x, 'c': op['c'], 'cfg': _canon(op['cfg'])}
